@@ -17,6 +17,7 @@ import traceback
 from pathlib import Path
 
 import c03_impl as c3
+import c03_scale
 from coqbridge import fl
 
 PROP = "C03"
@@ -34,6 +35,10 @@ RULE = ("Layouts: 2-9 frames on the model time grid with spacings from 1 step up
         "the Coq machine is stepped for all steps and compared on the steps with a particle. Thorough: the complete family of layouts with <= 5 "
         "frames and spacings <= 4 steps, and with 6 frames and spacings <= 3 steps (<= 4 with C03_FULL=1), each split in "
         "every way into <= 3 files, every start offset, both directions. "
+        "Scale (every tier, every seed, first in the list; oracle only): c03_scale.scale_cases - 999..20001 model steps between "
+        "two frames (around 1000, 1024, 2048, 4096, daily frames at dt = 10 s), a run of > 2^16 steps over 17 files, 1040 frames "
+        "in 104 files, 70 000 / 130 000 particles, one run through the real Model with 1025 particles; f8 and f4 files; "
+        "the clause is decided at EVERY step (numpy); thorough adds 1100 files, 1500 frames in a file, gaps 40000/70001, 140 000 steps. "
         "Non-trivial = a run with at least one hand-over at a frame step after step 0 and a slope change; "
         "key = (spacings, partition, offset, direction, scalar).")
 TRUSTED = ["Coq 8.16.1 kernel + vm_compute", "hand-written model coq/Model/ForcingTime.v tied by this correspondence",
@@ -113,6 +118,8 @@ _PRE = {}       # bid -> result
 
 def gen_cases(ctx):
     rng = ctx.rng
+    # realistic size first: deterministic, independent of the seed (c03_scale.py)
+    scale = c03_scale.scale_cases(thorough=not ctx.quick)
     out = []
     if not ctx.quick:
         # complete family: every spacing vector, every split into <= 3 files, every offset, both directions
@@ -179,7 +186,7 @@ def gen_cases(ctx):
             fam["bid"] = k
         _PENDING[:] = out
         _PRE.clear()
-    return out
+    return scale + out
 
 
 # ---------------------------------------------------------------------------------------------
@@ -381,6 +388,8 @@ def _precompute(ctx):
 
 
 def eval_case(desc, ctx):
+    if "scale" in desc:
+        return c03_scale.eval_scale(desc, ctx.subdir(f"c03_scale_{next(_counter)}"))
     bid = desc.get("bid")
     if bid is not None and _PENDING and not ctx.quick:
         _precompute(ctx)
